@@ -576,6 +576,11 @@ func runC18(c *Ctx) {
 		"non-trivial: ez reached the file and the file changes the stack (full != file-less) — distinct by (format, variant, watch, per-leaf layer subsets, kind)"
 	n := c.scale(2500, 30000)
 	c18EmptyPath(c, c.scale(40, 600))
+	if c.Prop == "C18" {
+		// the options ez hands to the file decoder, together: alias support AND Params.FileFieldNameEncoder (an aliased
+		// key is written in the file's naming convention like any other key) - the C14 stream over the ez entry points
+		c14Ez(c, c.scale(150, 3000))
+	}
 	if c.Prop != "C18" {
 		n = c.scale(250, 3000)
 	} else {
